@@ -830,23 +830,47 @@ func init() {
 	})
 }
 
-// option reads: every place where a field of a Minifier option struct is read in the six minifier packages, with the
-// enclosing function and the innermost context (the call it is an argument of, the `if` condition it occurs in, or the
-// assignment it feeds) — so that a new consumer of an option, or an option check that disappears, changes the
-// regenerated list (`option_sites_ok`).
+// option reads: every place where a field of a Minifier option struct is read or written in the six minifier packages,
+// with the enclosing function and the innermost context — so that a new consumer of an option, or an option check that
+// disappears, changes the regenerated list (`option_sites_ok`).  Resolved through the type checker: the option struct is
+// recognised by its type (whatever the receiver / local copy is called), the context is
+//
+//	`if-condition`                 the read occurs in the condition of an `if`
+//	`arg N of <callee>`            it is (part of) argument N of a call; the callee by its resolved name (pkg.Func, pkg.Type.Method)
+//	`assigned to field <T.f>` / `assigned to a local`      it feeds an assignment
+//	`WRITE`                        the field is assigned
+//	`returned` / `expr`
+//
+// Variable names and the text of conditions are not part of the fact.
 func init() {
 	gen("OptionSites", func(r *Repo) (string, error) {
-		fields := map[string]bool{"KeepComments": true, "KeepConditionalComments": true, "KeepSpecialComments": true,
-			"KeepDefaultAttrVals": true, "KeepDocumentTags": true, "KeepEndTags": true, "KeepQuotes": true, "KeepWhitespace": true,
-			"TemplateDelims": true, "KeepCSS2": true, "Precision": true, "newPrecision": true, "Inline": true, "KeepVarNames": true,
-			"useAlphabetVarNames": true, "Version": true, "KeepNumbers": true}
+		e, err := r.TEnv()
+		if err != nil {
+			return "", err
+		}
 		var sites []string
-		for _, pkg := range []string{"css", "html", "js", "json", "svg", "xml"} {
-			fs, err := r.Files(pkg)
+		for _, pkg := range c16OptionPkgs {
+			p, err := e.Pkg(pkg)
 			if err != nil {
 				return "", err
 			}
-			for _, f := range fs {
+			info := p.TypesInfo
+			isOption := func(sel *ast.SelectorExpr) bool {
+				s, ok := info.Selections[sel]
+				if !ok || s.Kind() != types.FieldVal {
+					return false
+				}
+				rt := s.Recv()
+				if pt, ok := rt.Underlying().(*types.Pointer); ok {
+					rt = pt.Elem()
+				}
+				nt, ok := types.Unalias(rt).(*types.Named)
+				return ok && nt.Obj().Name() == "Minifier" && nt.Obj().Pkg() == p.Types
+			}
+			for _, f := range p.Syntax {
+				if !isRepoFile(r.Fset, f) {
+					continue
+				}
 				for _, d := range f.Decls {
 					fd, ok := d.(*ast.FuncDecl)
 					if !ok || fd.Body == nil {
@@ -861,33 +885,29 @@ func init() {
 						}
 						stack = append(stack, n)
 						sel, ok := n.(*ast.SelectorExpr)
-						if !ok || !fields[sel.Sel.Name] {
-							return true
-						}
-						recv := exprText(r.Fset, sel.X)
-						if recv != "o" && !strings.HasSuffix(recv, ".o") && recv != "tmp" {
+						if !ok || !isOption(sel) {
 							return true
 						}
 						ctx := "expr"
 						for i := len(stack) - 2; i >= 0; i-- {
 							switch t := stack[i].(type) {
 							case *ast.CallExpr:
-								isArg := false
-								for _, a := range t.Args {
+								for k, a := range t.Args {
 									if a.Pos() <= sel.Pos() && sel.End() <= a.End() {
-										isArg = true
+										callee := types.ExprString(t.Fun)
+										if fo := calleeOf(info, t); fo != nil {
+											callee = shortFuncName(fo)
+										} else if id, ok := unparen(t.Fun).(*ast.Ident); ok {
+											if _, isB := info.Uses[id].(*types.Builtin); !isB {
+												callee = "a function value"
+											}
+										}
+										ctx = fmt.Sprintf("arg %d of %s", k, callee)
 									}
-								}
-								if isArg {
-									ctx = "arg of " + exprText(r.Fset, t.Fun)
 								}
 							case *ast.IfStmt:
 								if t.Cond.Pos() <= sel.Pos() && sel.End() <= t.Cond.End() {
-									c := exprText(r.Fset, t.Cond)
-									if len(c) > 60 {
-										c = c[:60] + ".."
-									}
-									ctx = "if " + c
+									ctx = "if-condition"
 								}
 							case *ast.AssignStmt:
 								onLeft := false
@@ -899,7 +919,16 @@ func init() {
 								if onLeft {
 									ctx = "WRITE"
 								} else {
-									ctx = "assigned to " + exprText(r.Fset, t.Lhs[0])
+									ctx = "assigned to a local"
+									if ls, ok := unparen(t.Lhs[0]).(*ast.SelectorExpr); ok {
+										if s, ok := info.Selections[ls]; ok && s.Kind() == types.FieldVal {
+											rt := s.Recv()
+											if pt, ok := rt.Underlying().(*types.Pointer); ok {
+												rt = pt.Elem()
+											}
+											ctx = "assigned to field " + types.TypeString(rt, func(p *types.Package) string { return p.Name() }) + "." + s.Obj().Name()
+										}
+									}
 								}
 							case *ast.ReturnStmt:
 								ctx = "returned"
@@ -917,7 +946,15 @@ func init() {
 		sort.Strings(sites)
 		var b strings.Builder
 		b.WriteString(header("OptionSites", "/repo/{css,html,js,json,svg,xml} (every read or write of an option field)"))
-		fmt.Fprintf(&b, "def sites : List String := %s\n", leanStrList(sites))
+		fmt.Fprintf(&b, "def sites : List String := [\n")
+		for i, s := range sites {
+			sep := ","
+			if i == len(sites)-1 {
+				sep = ""
+			}
+			fmt.Fprintf(&b, "  %s%s\n", leanStr(s), sep)
+		}
+		b.WriteString("]\n")
 		b.WriteString(footer("OptionSites"))
 		return b.String(), nil
 	})
